@@ -1,5 +1,7 @@
 import Ecal.Model.Prims
 import Ecal.Lemmas.C06Guards
+import Ecal.Lemmas.C06EvalSites
+import Ecal.Lemmas.C06PrimsTie
 import Ecal.Model.Eval
 import Ecal.Lemmas.C06NoPanic
 import Ecal.Lemmas.C06FragB
@@ -246,6 +248,21 @@ theorem builtin_total (name : String) (args : List PVal) (hn : ∀ a ∈ args, a
   · exact engine_sites_guarded.1 _
   · exact typeFunc_total _
 
+open Ecal.Lemmas.C06PrimsTie Ecal.Ev in
+/-- **The Prims transcriptions of `len`, `del`, `add` are tied to the evaluator model.** For every argument vector
+    (any length, any kinds) and every heap, `Prims.lenFunc / delFunc / addFunc` on the abstraction of the arguments
+    (`absV`: kind, list length, map size, `int(x)`) and the evaluator's `lenB / delB / addB` — the functions the driver
+    runs — end in the same class (value / error value), unless the evaluator model leaves itself (`unsupported` or
+    fuel: a string / opaque / NaN / ±9e18 / non-integral index, a map key its printer does not cover). So for these
+    three `builtin_total` is a statement about the compared model's argument checks. Still transcription-only (no
+    theorem ties them to `Ecal.Ev`): `concat`, `range`, `raise`, `type` in `Prims.builtin`, and the two engine
+    transcriptions `sinkAttrSite`, `stateKeySite` (the engine is not in the evaluator model). -/
+theorem prims_builtins_agree_with_ev :
+    (∀ (args : List Val) (s : St), Agree ((lenB args).run.run s).1 (lenFunc (args.map (absV s)))) ∧
+    (∀ (args : List Val) (s : St), Agree ((delB args).run.run s).1 (delFunc (args.map (absV s)))) ∧
+    (∀ (args : List Val) (s : St), Agree ((addB args).run.run s).1 (addFunc (args.map (absV s)))) :=
+  ⟨len_agree, del_agree, add_agree⟩
+
 /-- non-vacuity: the hypotheses hold for concrete vectors (also a negative fraction: int(-0.5) = int(0.5) = 0),
     and the builtins do distinguish errors from values -/
 example : builtin "add" [.list [.null], .num 2 3, .num 7 8] = some (.error (.err "Out of bounds access to list")) := by rfl
@@ -283,16 +300,12 @@ theorem guards_sufficient :
    valuesEqual_noPanic, numOperands_noPanic⟩
 
 open Ecal.GoPrim Ecal.Lemmas.C06Guards Ecal.Ev in
-/-- REFINEMENT, and what it does NOT say. Conjuncts 1, 2, 5 are equations about definitions of `Ecal.Ev` (the model
-    that is compared with Go on every run): its list read (`listIndex`, then the backing array) IS `Site.listRead` on
+/-- REFINEMENT, part 1 (normal forms and the three sites that are definitions of `Ecal.Ev`). Conjuncts 1, 2, 5 are
+    equations about definitions of `Ecal.Ev`: its list read (`listIndex`, then the backing array) IS `Site.listRead` on
     the slice's elements, `Site.mapLit` stores with `Ev.mapStore`, the comparable branch of `Site.valuesEqual` is
-    `Ev.keyEq`; `delAt_backing` / `insertAt_backing` (Lemmas/C06Guards) say that `Ev.delAt` / `Ev.insertAt` store the
-    lists of conjuncts 6, 7. Conjuncts 3, 4, 6, 7 only NORMALISE the sites (`Site.modint`, `Site.numOperands`,
-    `Site.del`, `Site.insert` as plain if-then-else); that `eval` on a `modint` node, `numOp`, `delB`, `addB` use the
-    same guard is BY INSPECTION of Model/Eval.lean (`if yi = 0`, the operand match, `if i < 0 || i ≥ l`,
-    `if i < 0 || i > l`) — no theorem here mentions those four definitions, deleting the guard in Eval.lean would not
-    break a proof. What does break then is the correspondence: `5 % 0`, `1 + "a"`, `del([1], 5)`, `add([1], 2, 7)` are
-    directed cases of every run, and the model would answer with a value where Go answers with an error. -/
+    `Ev.keyEq`. Conjuncts 3, 4, 6, 7 give the NORMAL FORMS of `Site.modint`, `Site.numOperands`, `Site.del`,
+    `Site.insert`; that `eval` / `numOp` / `delB` / `addB` compute exactly these sites is part 2:
+    `ev_computes_guarded_sites` below (equations about the evaluator's own definitions). -/
 theorem model_is_guard_then_primitive :
     (∀ (fld : List Nat) (b : List Val) (l : Nat) (s : St), l ≤ b.length →
       ((do let i ← listIndex fld l; pure (b.getD i Val.null) : M Val).run.run s) = (Site.listRead (b.take l) fld, s)) ∧
@@ -307,6 +320,44 @@ theorem model_is_guard_then_primitive :
       else .ok (xs.take i.toNat ++ [v] ++ xs.drop i.toNat)) :=
   ⟨fun fld b l s h => listRead_refines fld b l h s, mapLit_refines, modint_refines, numOperands_refines,
    valuesEqual_refines, del_eq, insert_eq⟩
+
+open Ecal.GoPrim Ecal.Ev Ecal.Lemmas.C06Sites in
+/-- REFINEMENT, part 2: the evaluator model — the definitions the driver runs — computes the remaining four sites.
+    (1) `eval` on a `modint` node = evaluate both operands, then `modintTail`: operand kinds, the two integer
+        conversions, then `Site.modint` (guard `int64(b) == 0`, then Go's `%`);
+    (2) `numOp` (to which `eval` reduces on `plus minus times div divint` with two operands: `eval_arith`) = evaluate
+        both operands, then `Site.numOperands` (comma-ok tests, then the unchecked assertions), then the operation;
+    (3) `delB` on a list = the conversions, then `Site.del` on the slice's elements, the result as a NEW list;
+    (4) `addB` with an index = the conversions, then `Site.insert` on the slice's elements; only after the site the
+        model leaves itself for a non-integral index.
+    (3), (4) for every state in which the slice does not reach beyond its backing array. Together with
+    `guards_sufficient` this is: at all seven value-level sites the compared model computes guard → primitive, and
+    under the guard the primitive cannot panic. Deleting a guard in Model/Eval.lean breaks these proofs. -/
+theorem ev_computes_guarded_sites :
+    (∀ (f sc : Nat) (n ca cb : Ecal.Parse.Node), n.name = "modint" → n.children = [some ca, some cb] →
+      eval (f+1) sc n = (do let a ← eval f sc ca; let b ← eval f sc cb; modintTail n ca cb a b)) ∧
+    (∀ (f sc : Nat) (n ca cb : Ecal.Parse.Node) (op : Float → Float → Val), n.children = [some ca, some cb] →
+      numOp (f+1) sc n op = (do let a ← eval f sc ca; let b ← eval f sc cb; numOpTail ca cb op a b)) ∧
+    (∀ (r l : Nat) (k : Val) (s : St), l ≤ (s.lists.getD r []).length →
+      (delB [.list r l, k]).run.run s =
+        (do let x ← numParamB 2 k
+            let i ← goInt x
+            let xs ← getList r l
+            let ys ← liftR (Site.del xs i)
+            newListExact ys : M Val).run.run s) ∧
+    (∀ (r l : Nat) (v ix : Val) (s : St), l ≤ (s.lists.getD r []).length →
+      (addB [.list r l, v, ix]).run.run s =
+        (do let x ← numParamB 3 ix
+            let i ← goInt x
+            let xs ← getList r l
+            match Site.insert xs v i with
+            | .error e => throw e
+            | .ok ys => if !(isIntegral x) then throw (Sig.unsupported "add with a non-integral index") else newListExact ys : M Val).run.run s) :=
+  ⟨fun f sc n ca cb h hc => eval_modint f sc n ca cb h hc, fun f sc n ca cb op hc => numOp_site f sc n ca cb hc op,
+   fun r l k s h => delB_site r l k s h, fun r l v ix s h => addB_site r l v ix s h⟩
+
+/-- non-vacuity of the heap hypothesis: the initial heap (slot 0 is the nil slice) and the empty list -/
+example : (0 : Nat) ≤ ((({} : Ecal.Ev.St).lists).getD 0 []).length := Nat.zero_le _
 
 open Ecal.GoPrim Ecal.Lemmas.C06Guards in
 /-- NECESSITY (negative witnesses). The same sites WITHOUT their guard — the code before ee44ab4 — panic on
